@@ -276,13 +276,41 @@ func ruleE3b(w *World, r *Report) {
 		n++
 		key := w.Name(fn) + " › walks every cached node"
 		bad := ""
-		rec := 0
+		covered := map[string]bool{} // child fields the walk descends into
+		markCond := func(b *ssa.BasicBlock) {
+			for _, f := range factsAt(b) {
+				if bo, isB := f.Cond.(*ssa.BinOp); isB {
+					_, l := isLoadOfField(bo.X, "node", "next")
+					_, rr := isLoadOfField(bo.Y, "node", "next")
+					if l || rr {
+						bad = "the descent into a child is conditioned on the parent's own mark: marks left deeper in the tree under an unmarked ancestor survive the failed mutation"
+					}
+				}
+			}
+		}
+		// iteration down one side: the handle parameter is loop-carried and takes &n.<child>
+		eachInstr(fn, func(in ssa.Instruction) {
+			ph, ok := in.(*ssa.Phi)
+			if !ok || !isLoopHeaderPhi(ph) {
+				return
+			}
+			for i, e := range ph.Edges {
+				if _, st, name, okF := fieldOf(e); okF && st != nil && st.Obj().Name() == "node" && (name == "left" || name == "right") {
+					covered[name] = true
+					markCond(ph.Block().Preds[i])
+				}
+			}
+		})
 		eachInstr(fn, func(in ssa.Instruction) {
 			c, ok := in.(*ssa.Call)
 			if !ok || c.Common().StaticCallee() != fn {
 				return
 			}
-			rec++
+			for _, a := range c.Common().Args {
+				if _, st, name, okF := fieldOf(a); okF && st != nil && st.Obj().Name() == "node" && (name == "left" || name == "right") {
+					covered[name] = true
+				}
+			}
 			for _, f := range factsAt(in.Block()) {
 				if b, isB := f.Cond.(*ssa.BinOp); isB {
 					if _, isNext := isLoadOfField(b.X, "node", "next"); isNext {
@@ -318,8 +346,8 @@ func ruleE3b(w *World, r *Report) {
 				}
 			}
 		})
-		if rec < 2 && bad == "" {
-			bad = "the clearing walk does not recurse into both children"
+		if !(covered["left"] && covered["right"]) && bad == "" {
+			bad = "the clearing walk does not descend into both children"
 		}
 		r.Check(bad == "", rule, key, w.Pos(fn.Pos()), "both children are visited whatever the node's own mark", bad)
 	}
